@@ -669,7 +669,7 @@ impl<'t, 'a> Gen<'t, 'a> {
             }
             _ => self.expr(d),
         };
-        let r = match self.t.weighted(&[4, 2, 1, 6]) {
+        let r = match self.t.weighted(&[4, 2, 1, 6, 2]) {
             0 => self.ident(),
             1 => self.literal(),
             2 => {
@@ -677,6 +677,13 @@ impl<'t, 'a> Gen<'t, 'a> {
                 let a = self.literal();
                 let b = self.literal();
                 E::Bin("+", a.bx(), b.bx())
+            }
+            4 => {
+                // a unary operator applied directly to an identifier: it runs the operand's coercion, i.e. code
+                self.tag("unary-ident-operand");
+                let op = *self.t.pick(&["-", "+", "~"]);
+                let v = self.ident();
+                if self.t.flag() { E::Unary(op, v.bx()) } else { E::Unary(op, v.bx()).paren() }
             }
             _ => self.expr(d),
         };
